@@ -8,8 +8,6 @@ GROUPS = [
     dict(name='shim_nanosleep', tu='shims.c', harness='h_nanosleep', mode='H', functions=['nanosleep']),
     dict(name='wake_sleepers_le3', tu='event.c', harness='h_wake_sleepers', mode='H', functions=['fiber_event_wake_sleepers', 'waiter_remove_less_than', 'waiter_insert'],
          unwind=6, bounded=True, bound='sleeper trees of <= 3 nodes (every shape and key order, equal keys included), symbolic clock', timeout=600),
-    dict(name='fd_closed', tu='event.c', harness='h_fd_closed', mode='H', functions=['fiber_fd_closed', 'fiber_event_wake_waiters'], unwind=2, exact_unwind=True,
-         unbounded_note='no waiters listed (the list walk is loop-free then); all int descriptors'),
 ]
 ASSUMPTIONS = ['timer ticks are at least 1 ms apart (they are 5 ms: FIBER_TIME_RESOLUTION_MS) and the tick counter stays below 2^62',
                'nanosleep: tv_sec fits the uint32 seconds parameter of fiber_sleep',
